@@ -350,13 +350,24 @@ Definition to_hkey (v : value) : option hkey :=
   | _ => None
   end.
 
+(** [key not in self.lookup] hashes the dispatch value first: a list or dict, or a tuple that
+    contains one, raises TypeError (even when the table is empty). *)
+Fixpoint hashable (v : value) : bool :=
+  match v with
+  | VJ (JList _) | VJ (JObj _) => false
+  | VJ _ => true
+  | VTag _ args => forallb hashable args
+  | VMissing => true
+  end.
+
 (** conditional.py:137-151 [Switch._lookup]: the chosen branch and whether it is wrapped in
     [_DependsOn(branch, dispatch)] (its keys then include the dispatch's keys).  A dispatch
-    that fails to evaluate selects the *unwrapped* default. *)
+    that fails to evaluate selects the unwrapped default. *)
 Definition choose (dv : res value) (lk : list (hkey * node)) (df : option node) : res (node * bool) :=
   match dv with
   | Fail e => match df with Some n => Ok (n, false) | None => Fail e end
   | Ok v =>
+      if negb (hashable v) then Fail FType else
       match match to_hkey v with Some k => tfind k lk | None => None end with
       | Some n => Ok (n, true)
       | None => match df with Some n => Ok (n, true) | None => Fail FSwitch end
